@@ -1013,13 +1013,13 @@ class Graph:
                       for a in self.assocs))
 
 
-def gen_graph(rng, implicit_assoc_p=0.0):
+def gen_graph(rng, implicit_assoc_p=0.0, two_ns=False, id_key_p=0.6):
     g = Graph()
     names = Names(rng, MOF_RESERVED + ['id', 'aid', 'key', 'override',
                                        'association', 'description'])
     ns1 = rng.choice(['root/cimv2', 'root/a', 'test/ns1'])
     g.namespaces = [ns1]
-    if rng.random() < 0.5:
+    if rng.random() < 0.5 or two_ns:
         g.namespaces.append(rng.choice(['root/b', 'other', 'test/ns2']))
     # node classes: 2-4 root-or-derived classes
     for _ in range(rng.randint(1, 2)):
@@ -1037,7 +1037,7 @@ def gen_graph(rng, implicit_assoc_p=0.0):
     role_pool = [names.new('r') for _ in range(5)]
     for _ in range(nassoc_roots):
         ac = AssocClass(names.new('A'))
-        ac.id_key = rng.random() < 0.6
+        ac.id_key = rng.random() < id_key_p
         arity = rng.choice([2, 2, 2, 3])
         roles = rng.sample(role_pool, arity) if rng.random() < 0.6 else \
             [names.new('r') for _ in range(arity)]
